@@ -31,6 +31,14 @@ CHECKS = {
             "§6 C02",
             "unbounded proof (induction over get_runs with a pending-run invariant) + extraction + differential correspondence",
             "Proved for uncompressed sparse extents (hosted, footer, COWD, SE-sparse) and flat extents; for stream-optimised (compressed) extents only progress is proved and the read path is covered by the executable model + correspondence (sparse_read_correct is *partial* there). zlib is a parameter of the model. WF includes 'every needed lookup returns the format's value' (evaluated per case by the driver)."),
+    "C01": ("Lean 4 executable model of qcow2.py (header + gates, v2 normalisation, extensions, L1/L2 walk, cluster and sub-cluster classification incl. extended L2, contiguous-run counting, _yield_runs, _read dispatch, compressed clusters with inflate as a parameter, backing incl. short backing files, external data file); constants/layouts/bit-counter behaviour re-extracted each run; model (with a Lean inflate), real code and construction truth compared on generated images of every advertised feature",
+            "§6 C01",
+            "executable Lean model + extraction + differential correspondence; theorems so far: extracted-constant equalities (read-path theorems are being added: see DESIGN §6 C01 status)",
+            "PARTIAL: the unbounded read-correctness theorem for QCOW2 (qcow2_read_correct) is not proved yet; what is machine-checked is the constant/layout equalities, and what ties the model to the code is the correspondence. zlib is a parameter of the model."),
+    "C10": ("Lean 4: the extent-line grammar is the regex *translated from the live RE_EXTENT_DESCRIPTOR on every run* and executed by a kernel-reducible backtracking matcher; theorem wiring_total (decide) shows every data-bearing extent kind is accepted by the grammar and mapped by VMDK.__init__; executable models of DiskDescriptor.parse, the extent walk of VMDK.read_sectors and StorageStream; real code vs model vs construction truth on generated multi-extent disks (descriptor and handle mode), Parallels storages, 20 000 extent lines and 4 000 descriptor texts per quick run",
+            "§6 C10",
+            "translator-regenerated model (regex) + kernel-evaluated table theorem + differential correspondence",
+            "PARTIAL: vmdk_concat_read_correct / storage_concat_read_correct (read = slice of the concatenation for every request) are covered by the executable models + correspondence, not yet by a theorem. Known findings D20a/D20b (ZERO/RDM/RAW extents unmapped; FLAT start offset ignored) are listed in known_findings.json."),
 }
 
 NOT_YET = {
